@@ -99,6 +99,7 @@ def build_tasks(chk, tier, ref):
     tasks = []; meta = []
     for ti, (name, b, l, rm) in enumerate(good):
         cfgs = [mt[ti % 2]]
+        if name.startswith(('hand:', 'corpus:')) or ':' in name: cfgs = [mt[0], mt[1]]      # both transient settings for the targeted families
         if name.startswith('agreedins:') and tier == 'quick': cfgs += [r.choice(cli)] if ti % 2 == 0 else []
         elif tier == 'quick': cfgs += [cli[0]] + [r.choice(cli) for _ in range(2)]
         else: cfgs += [mt[(ti + 1) % 2]] + [cli[(ti * 3 + j) % len(cli)] for j in range(3)] + [r.choice(cli)]
